@@ -85,7 +85,7 @@ def check_domination(case):
                                     top = top[-20:]
     import jellyfysh.setting as setting
     setting.reset()
-    return (("dom", L, kb is None), n, tuple(top)), fails
+    return (("dom", L, kt, kb), n, tuple(top)), fails
 
 
 def refine(case):
@@ -123,7 +123,7 @@ def refine(case):
                       % (L, kt, kb, s0, s, d, sign, best)))
     import jellyfysh.setting as setting
     setting.reset()
-    return (("refine", L), evals, ((best, tuple(s), d, sign),)), fails
+    return (("refine", L, kt, kb), evals, ((best, tuple(s), d, sign),)), fails
 
 
 # ---- (b) confirmation ------------------------------------------------------------------------------------------------
@@ -181,13 +181,17 @@ def check_confirmation(case):
         lift = getattr(importlib.import_module("jellyfysh.lifting." + mod), cls)()
         handler = TwoCompositeObjectSummedBoundingPotentialEventHandler(potential=true, bounding_potential=bound,
                                                                         lifting=lift, charge="q")
-    if copied:
+    if copied == "dill":
+        import dill
+        handler = dill.loads(dill.dumps(handler))  # what a resumed run uses
+    elif copied:
         handler = copy.deepcopy(handler)
     fails = []
     n = 0
     sigs = set()
     for in_state, desc in _in_states(kind, L):
-        desc = desc + (" [deep-copied handler]" if copied else "")
+        desc = desc + (" [handler restored from a dill dump]" if copied == "dill" else
+                       " [deep-copied handler]" if copied else "")
         E = 0.7
         try:
             t, out, _ = hx.run_event(handler, in_state, E, [ONE_BELOW])
@@ -271,6 +275,27 @@ def _pots_noreset(L, k_true, k_bound):
     return true, bound
 
 
+def shipped_bound_settings():
+    """(L, true prefactor, bound prefactor or None, [ini...]) for every shipped configuration that thins with the
+    nearest-image 1/r bound, read from the .ini files as they are now."""
+    from .. import cfg
+    out = {}
+    for ini in cfg.SHIPPED + cfg.PDB_INPUT:
+        c = cfg.load(ini)
+        uses = any(c.has_option(sec, "bounding_potential") and
+                   "inverse_power_coulomb_bounding_potential" in c.get(sec, "bounding_potential")
+                   for sec in c.sections())
+        if not uses or not c.has_section("HypercubicSetting"):
+            continue
+        L = float(c.get("HypercubicSetting", "system_length"))
+        kt = float(c.get("MergedImageCoulombPotential", "prefactor")) \
+            if c.has_option("MergedImageCoulombPotential", "prefactor") else 1.0
+        kb = float(c.get("InversePowerCoulombBoundingPotential", "prefactor")) \
+            if c.has_option("InversePowerCoulombBoundingPotential", "prefactor") else None
+        out.setdefault((L, kt, kb), []).append(ini)
+    return out
+
+
 DISPATCH = {"dom": check_domination, "refine": refine, "confirm": check_confirmation}
 
 
@@ -282,7 +307,9 @@ def run(ctx):
     from ..core import Result
     res = Result()
     m = 81 if ctx.thorough else 41
-    settings = [(1.0, 1.0, None), (2.0, 1.0, None), (10.0, 1.0, None), (10.0, 332.0, 531.2)]
+    shipped = shipped_bound_settings()
+    settings = [(1.0, 1.0, None), (2.0, 1.0, None), (10.0, 1.0, None)]
+    settings += [k for k in sorted(shipped, key=repr) if k not in settings]
     if ctx.thorough:
         settings += [(12.836, 1.0, None), (0.3, 1.0, None)]
     dom = []
@@ -300,9 +327,8 @@ def run(ctx):
     for sig, k, top in sigs1:
         tops[sig[1:]].extend(top)
     ref_cases = []
-    for (L, dflt), lst in tops.items():
+    for (L, kt, kb), lst in tops.items():
         lst.sort()
-        kt, kb = next((a, b) for (l, a, b) in settings if l == L and (b is None) == dflt)
         for r, s, d, sign in lst[-20:]:
             ref_cases.append(("refine", L, kt, kb, s, d, sign))
     n2, sigs2, fails2 = par.run_cases(check_case, ref_cases, ctx.cores, chunk=2)
@@ -310,11 +336,11 @@ def run(ctx):
     for sig, k, top in sigs2:
         evals += k
         for r, s, d, sign in top:
-            if r > sup.get(sig[1], (0,))[0]:
-                sup[sig[1]] = (r, s, d, sign)
+            if r > sup.get(sig[1:], (0,))[0]:
+                sup[sig[1:]] = (r, s, d, sign)
     conf = []
     for L, kt, kb in [(1.0, 1.0, None), (10.0, 332.0, 531.2)]:
-        for copied in (False, True):
+        for copied in (False, True, "dill"):
             conf.append(("confirm", "atoms", L, kt, kb, None, copied))
             for lift in ("inside_first_lifting.InsideFirstLifting", "ratio_lifting.RatioLifting"):
                 conf.append(("confirm", "dipoles", L, kt, kb, lift, copied))
@@ -336,6 +362,7 @@ def run(ctx):
         "distinct_nontrivial": len(sigs1) + len(sigs3) + len(st["outcomes"]),
         "supremum_true_over_bound": {str(k): {"ratio": v[0], "separation": list(v[1]), "direction": v[2],
                                               "charge_product_sign": v[3]} for k, v in sup.items()},
+        "shipped_bound_settings": {repr(k): v for k, v in shipped.items()},
         "explored_executions": st["executions"], "thinned_events_checked_in_runs": st.get("c04_thinned", 0),
         "rule": "(a) node lattice %d^3 (L=1; 21^3 for the other box lengths in quick) of [-L/2, L/2)^3 x 3 directions x "
                 "both charge signs on the real potentials + pattern search from the 20 largest ratios per setting; "
